@@ -424,9 +424,15 @@ func guard(f func() (string, error)) (term string, ok bool, errText string) {
 
 func (c *c05Run) msg(b []byte, tag string) {
 	t, ok, e := guard(func() (string, error) {
-		m, err := dhcpv6.FromBytes(b)
+		// decoded from a private copy that is overwritten afterwards, as a receive
+		// buffer would be: the value judged is the one the caller is left with
+		bb := append([]byte{}, b...)
+		m, err := dhcpv6.FromBytes(bb)
 		if err != nil {
 			return "", err
+		}
+		for i := range bb {
+			bb[i] ^= 0x5a
 		}
 		return sxMsg6(m), nil
 	})
@@ -438,9 +444,13 @@ func (c *c05Run) opt(code int, data []byte, tag string) {
 		data = []byte{}
 	}
 	t, ok, e := guard(func() (string, error) {
-		o, err := dhcpv6.ParseOption(dhcpv6.OptionCode(code), data)
+		dd := append([]byte{}, data...)
+		o, err := dhcpv6.ParseOption(dhcpv6.OptionCode(code), dd)
 		if err != nil {
 			return "", err
+		}
+		for i := range dd {
+			dd[i] ^= 0x5a
 		}
 		return sxOpt6(o), nil
 	})
